@@ -81,12 +81,30 @@ def run_case(c):
     return out
 
 
+def gate_case(c):
+    """zero fields: what update_E / update_H leave at each source's own cell is that source's injection"""
+    oc, arrays, cfg, _ = build(c["spec"])
+    T = int(cfg.time_steps_total)
+    arrays = arrays.reset()
+    srcs = sorted(oc.sources, key=lambda s_: int(s_.name[1:]))
+    out = {"T": T, "on": [[bool(b) for b in np.asarray(s_._is_on_at_time_step_arr)] for s_ in srcs], "inj": [[False] * T for _ in srcs]}
+    for t in range(T):
+        ts = jnp.asarray(t, dtype=jnp.int32)
+        E = np.asarray(update_E(ts, arrays, oc, cfg, True).fields.E)
+        H = np.asarray(update_H(ts, arrays, oc, cfg, True).fields.H)
+        for n, s_ in enumerate(srcs):
+            gs = s_.grid_slice
+            if np.abs(E[(slice(None),) + tuple(gs)]).max() > 0 or np.abs(H[(slice(None),) + tuple(gs)]).max() > 0:
+                out["inj"][n][t] = True
+    return out
+
+
 def main():
     payload = json.load(sys.stdin)
     outs = []
     for c in payload["cases"]:
         try:
-            outs.append(switch_case(c) if c["kind"] == "switch" else run_case(c))
+            outs.append(switch_case(c) if c["kind"] == "switch" else (gate_case(c) if c["kind"] == "gate" else run_case(c)))
         except Exception as e:
             outs.append({"crash": type(e).__name__ + ": " + str(e)[:300]})
     emit({"outs": outs})
